@@ -396,7 +396,9 @@ func (c *ctx) create() {
 	if o.s.Weights != nil && !o.wide && g.Chance(1, 8) {
 		// weights are only meaningful up to a common factor: scale them all by an
 		// extreme (but exactly representable) power of two
-		sc := math.Ldexp(1, []int{400, -400, 900, -900}[g.Intn(4)])
+		// (including the magnitudes at which integer conversions change behaviour:
+		// 2^31, 2^32, 2^53, 2^61..2^64)
+		sc := math.Ldexp(1, []int{400, -400, 900, -900, 31, 32, 52, 53, 61, 62, 63, 64, -61, -64}[g.Intn(14)])
 		for i := range o.s.Weights {
 			o.s.Weights[i] *= sc
 		}
@@ -404,6 +406,29 @@ func (c *ctx) create() {
 			o.wkind = 2 // no longer small integers: repetition/expansion does not apply
 		}
 		c.probe("weights_scaled_by_extreme_power_of_two")
+	}
+	if g.Chance(1, 10) && n >= 2 {
+		// strictly or weakly descending input (weights stay attached): the mirror
+		// image of the already-sorted fast path
+		idx := make([]int, n)
+		for i := range idx {
+			idx[i] = i
+		}
+		xs0 := o.s.Xs
+		sort.SliceStable(idx, func(a, b int) bool { return xs0[idx[a]] > xs0[idx[b]] })
+		nx := make([]float64, n)
+		var nw []float64
+		if o.s.Weights != nil {
+			nw = make([]float64, n)
+		}
+		for i, j := range idx {
+			nx[i] = xs0[j]
+			if nw != nil {
+				nw[i] = o.s.Weights[j]
+			}
+		}
+		o.s.Xs, o.s.Weights = nx, nw
+		c.probe("created_descending")
 	}
 	asc := g.Chance(1, 4)
 	if asc {
@@ -967,7 +992,11 @@ func (c *ctx) vecEv() {
 			}
 		}
 	case 3:
-		xs, _ := c.genXs(g.Range(0, 40))
+		nmap := g.Range(0, 40)
+		if g.Chance(1, 12) {
+			nmap = g.Range(1020, 1100) // around a plausible "go parallel" threshold
+		}
+		xs, _ := c.genXs(nmap)
 		a, b := float64(g.Range(-3, 3)), float64(g.Range(-3, 3))
 		f := func(x float64) float64 { return a*x + b }
 		if g.Chance(1, 3) {
